@@ -11,6 +11,7 @@ import scipy.sparse as sp
 from toqito.perms import permutation_operator, permute_systems, swap, swap_operator
 
 from .. import gen
+from ..exact import present
 
 RULE = ("configurations (input form, n, local dims, perm, flags, dtype) drawn by the seeded generator or enumerated "
         "(thorough); inputs are arange-labelled so one case settles the whole gather map; non-trivial = perm is not the "
@@ -105,7 +106,7 @@ def check_permute(ctx, form, dims_r, dims_c, perm, row_only, inv, dtype, dim_for
         dim_py, dim_js = np.array(d), list(d)
     else:  # two-row
         dim_py, dim_js = [list(dims_r), list(dims_c)], [list(dims_r), list(dims_c)]
-    Xin = sp.csr_matrix(X.real.astype(float)) if sparse else X
+    Xin = sp.csr_matrix(X.real.astype(float)) if sparse else (present(ctx.rng, X, allow_dtype=False) if X.ndim == 2 else X)
     impl = _call(permute_systems, Xin, list(perm), dim_py, row_only, inv)
     args = {"shape": shape, "data": list(range(int(np.prod(shape)))), "perm": list(perm), "dim": dim_js,
             "row_only": int(row_only), "inv": int(inv)}
